@@ -330,7 +330,11 @@ class CallMixin:
             return self.run.truth(args[0], node) if args else False
         if py in (list, tuple, set, frozenset):
             if not args:
-                return SList("concrete", []) if py is list else py()
+                if py in (list, set):
+                    l0 = SList("concrete", [])
+                    l0.pytype = py.__name__
+                    return l0
+                return py()
             v = args[0]
             items = self.concrete_items(v)
             if items is not None:
@@ -794,7 +798,9 @@ class CallMixin:
                     return SBool((name, s.key()))
                 if name in ("find", "count"):
                     return SOpaque((f"str.{name}", repr(s)), {"INT"})
-                return SStr([Frag("OP", ("str." + name,) + tuple(_deep(a) for a in args), s, ())])
+                key = ("str." + name,) + tuple(_deep(a) for a in args)
+                self.run.atom_info[("strop",) + key] = list(args)
+                return SStr([Frag("OP", key, s, ())])
             raise self.unmodelled(f"string method {name}", node)
         # ---- super() of a builtin base ---------------------------------------------------
         if isinstance(recv, _Base):
